@@ -488,6 +488,11 @@ func genCase(t *rapid.T) kase {
 		for i := 0; i < n; i++ {
 			all = append(all, i)
 		}
+		if rapid.Bool().Draw(t, "seedsubset") {
+			// only part of the universe becomes known in this one batch (several bins grow at once);
+			// the remaining peers enter the known set later, one by one, into bins that already grew
+			all = rapid.SliceOfNDistinct(rapid.IntRange(0, n-1), n/2, n, func(x int) int { return x }).Draw(t, "seedlist")
+		}
 		c.Ops = append(c.Ops, op{K: "add", List: all})
 	}
 	// usually the other bins get connected peers and the big bin is filled by inbound
